@@ -1181,7 +1181,11 @@ package flags
 // rank of the best way in which option o answers to name (0: not at all):
 // 4 ini-name (via the supplied matcher), 3 field name, 2 namespaced long name, 1 short name
 //@ pure func longNameWithNS(o *Option) string = ite(len(o.LongName) == 0, "", longNameOf(o))
-//@ pure func rankOf(o *Option, name string, hasMatcher bool) int = ite(hasMatcher && Group.optionByName.namematch(o, name), 4, ite(name == o.field.Name, 3, ite(name == longNameWithNS(o), 2, ite(o.ShortName != 0 && name == string(o.ShortName), 1, 0))))
+// (an option tagged no-ini does not exist for the INI reader: it answers to no name and so cannot hide another option)
+//@ assumed func noIni(o *Option) (r bool)
+//@   pure
+//@ axiom manual noIni_def: forall o *Option :: noIni(o) == (len(o.tag.Get("no-ini")) != 0)
+//@ pure func rankOf(o *Option, name string, hasMatcher bool) int = ite(noIni(o), 0, ite(hasMatcher && Group.optionByName.namematch(o, name), 4, ite(name == o.field.Name, 3, ite(name == longNameWithNS(o), 2, ite(o.ShortName != 0 && name == string(o.ShortName), 1, 0)))))
 //@ pure func noBetterIn(gr *Group, upto int, name string, hasMatcher bool, prio int) bool = forall(i, 0, upto, rankOf(gr.options[i], name, hasMatcher) <= prio)
 
 // Among options of equal rank the FIRST one in pre-order wins (an option is only
@@ -1201,6 +1205,7 @@ package flags
 //@   loop 2 invariant 0 <= prio && prio <= 4 && (prio == 0) == (retopt == nil) && (retopt != nil ==> rankOf(retopt, name, hm) == prio)
 //@   loop 2 invariant forall(j, 0, idx_1, noBetterIn(iterelem(Group.eachGroup, root, j, 0), len(iterelem(Group.eachGroup, root, j, 0).options), name, hm, prio))
 //@   loop 2 invariant noBetterIn(iterelem(Group.eachGroup, root, idx_1, 0), idx_2, name, hm, prio)
+//@   loop 2 invariant idx_2 < len(iterelem(Group.eachGroup, root, idx_1, 0).options) ==> use(noIni_def, iterelem(Group.eachGroup, root, idx_1, 0).options[idx_2])
 //@   loop 1 invariant[C12,C13] unfold(bestGrp(root, idx_1 + 1, name, hm)) && unfold(bestGrp(root, 0, name, hm)) && retopt == bestGrp(root, idx_1, name, hm)
 //@   loop 2 invariant[C12,C13] unfold(bestOpt(bestGrp(root, idx_1, name, hm), iterelem(Group.eachGroup, root, idx_1, 0).options, idx_2 + 1, name, hm)) && unfold(bestOpt(bestGrp(root, idx_1, name, hm), iterelem(Group.eachGroup, root, idx_1, 0).options, 0, name, hm)) && retopt == bestOpt(bestGrp(root, idx_1, name, hm), iterelem(Group.eachGroup, root, idx_1, 0).options, idx_2, name, hm)
 //@   ensures[C12,C13] r == bestGrp(g, iterlen(Group.eachGroup, g), name, hm)
